@@ -58,7 +58,8 @@ def check_subset(case):
     prep = libif.build_circuit(N, tomo.ops_tuple(case["state_ops"]))
     # ---- full state tomography of the subset
     try:
-        circs = L.tomo.full_state_tomography_circuits(prep, name, list(qubits))
+        ql = tuple(qubits) if case.get("zero_seed", 0) % 3 == 0 else list(qubits)      # sequence type must not matter
+        circs = L.tomo.full_state_tomography_circuits(prep, name, ql)
         counts = [tomo.exact_counts([(1.0, dense.run(tomo.measurement_ops(qc), N))], N, rng) for qc in circs]
         fitter = L.tomo.FullStateTomographyFitter(tomo.FakeResult(counts), circs)
         ev_red, p1 = tomo.convert_expectations(fitter.expectation_values(full_hilbert_space=False))
